@@ -3,7 +3,7 @@
 From CM Require Import Harness.RunBase Base.Dict Model.Location Spec.LocationSpec Proofs.LocationFacts Generated.Tables.
 Local Open Scope Z_scope.
 
-Definition T_now : ltab := mkltab loc_tol_start loc_tol_end sonar_tuple_widen.
+Definition T_now : ltab := mkltab loc_tol_start loc_tol_end sonar_tuple_widen line_filter_rule.
 
 Definition sp (l1 c1 l2 c2 : Z) : span := mkspan (mkpos l1 c1) (mkpos l2 c2).
 Definition lc (f : str) (l1 c1 l2 c2 : Z) : loc := mkloc f (mkpos l1 c1) (mkpos l2 c2).
@@ -80,49 +80,58 @@ Record e2e_case := mke2e {
   e_rules : list str;
   e_file : str;
   e_results : list result;          (* every open result of the result file, all rules and files, in file order *)
-  e_nodes : list node;              (* nodes the transformer tests, in leave order *)
+  e_nodes : list node;              (* nodes the transformer tests and acts on when selected, in leave order *)
   e_cands : list node;              (* all Call/Assign/ClassDef nodes (+ the tested nodes) of the program: span discipline *)
   e_sites : list (N * Z);           (* site node id, line at which its change is reported *)
+  e_lost : bool;                    (* on_result_found rebuilds a selected node from original_node: the rewrite of a selected
+                                       node nested in another selected node is discarded (C18_nested, FromOriginal) *)
+  e_span : N;                       (* change entries reported per selected node, at consecutive lines from its start line
+                                       (1; fix-assert-tuple: one per tuple element) *)
   e_expected : list N;              (* S: ids of the sites reported by a result of the codemod's rules in this file *)
   e_obs_rewritten : list N;         (* ids of the sites whose text changed *)
-  e_obs_changes : list (Z * list str) (* change entries of the report: line, finding ids; in report order *)
+  e_obs_changes : list (Z * list str) (* ALL change entries of the file in the report: line, finding ids; in report order *)
 }.
 
 Definition mem_N (i : N) (l : list N) : bool := existsb (N.eqb i) l.
 Definition same_set (a b : list N) : bool := forallb (fun i => mem_N i b) a && forallb (fun i => mem_N i a) b.
 
-Definition model_run (c : e2e_case) : list node * list change :=
+Definition pos_leb (a b : pos) : bool := (pline a <? pline b) || ((pline a =? pline b) && (pcol a <=? pcol b)).
+Definition pos_eqb (a b : pos) : bool := (pline a =? pline b) && (pcol a =? pcol b).
+Definition encloses (a b : span) : bool :=
+  pos_leb (sstart a) (sstart b) && pos_leb (send b) (send a) && negb (pos_eqb (sstart a) (sstart b) && pos_eqb (send a) (send b)).
+
+(** the model of one file: rewritten sites and every change entry *)
+Definition model_run (c : e2e_case) : list N * list change :=
   match process_file (Some (of_results (e_results c))) (e_rules c) (e_file c) with
   | ShortCircuit => ([], [])
   | Transform f =>
       let sel := List.filter (node_is_selected T_now (e_ovr c) f [] []) (e_nodes c) in
-      (sel, map (report_change findings_attach_rule f) sel)
+      let lost n := e_lost c && existsb (fun m => encloses (nspan m) (nspan n)) sel in
+      let rew := List.filter (fun i => mem_N i (map fst (e_sites c))) (map nid (List.filter (fun n => negb (lost n)) sel)) in
+      let entries := flat_map (fun n => map (fun k => let line := pline (sstart (nspan n)) + Z.of_nat k in
+                                                      mkchange line (get_findings_for_location findings_attach_rule f line))
+                                            (seq 0 (N.to_nat (e_span c)))) sel in
+      (* no rewritten text in the file => no diff => no change set at all *)
+      (rew, match rew with [] => [] | _ => entries end)
   end.
 
-(** model = implementation: the selected tested nodes that are sites are the rewritten sites; the change entries at
-    site lines are the model's *)
+(** model = implementation: the same rewritten sites, and the same change entries (all of them, in order) *)
 Definition e2e_model_ok (c : e2e_case) : bool :=
-  let '(sel, chs) := model_run c in
-  let site_ids := map fst (e_sites c) in
-  same_set (List.filter (fun i => mem_N i site_ids) (map nid sel)) (e_obs_rewritten c) &&
-  list_eqb (pair_eqb Z.eqb (list_eqb str_eqb))
-           (map (fun ch => (ch_line ch, map fid (ch_findings ch)))
-                (List.filter (fun ch => existsb (fun s => Z.eqb (snd s) (ch_line ch)) (e_sites c)) chs))
-           (List.filter (fun ch => existsb (fun s => Z.eqb (snd s) (fst ch)) (e_sites c)) (e_obs_changes c)).
+  let '(rew, chs) := model_run c in
+  same_set rew (e_obs_rewritten c) &&
+  list_eqb (pair_eqb Z.eqb (list_eqb str_eqb)) (map (fun ch => (ch_line ch, map fid (ch_findings ch))) chs) (e_obs_changes c).
 
 (** implementation = spec, part 1: rewritten == S *)
 Definition e2e_sites_ok (c : e2e_case) : bool := same_set (e_obs_rewritten c) (e_expected c).
 
-(** part 2: every rewritten site has exactly one change entry at its line and every entry at a site line carries as many
-    findings as results of the codemod's rules report that site (one), none at the line of an unreported site *)
-Definition count_entries (line : Z) (l : list (Z * list str)) : nat := length (List.filter (fun ch => Z.eqb (fst ch) line) l).
-Definition e2e_findings_ok (c : e2e_case) : bool :=
-  forallb (fun s =>
-     let entries := List.filter (fun ch => Z.eqb (fst ch) (snd s)) (e_obs_changes c) in
-     if mem_N (fst s) (e_obs_rewritten c)
-     then nonempty entries && forallb (fun ch => Nat.eqb (length (snd ch)) 1) entries
-     else true)
-   (e_sites c).
+(** part 2, over EVERY change entry of the file: an entry that carries findings carries exactly one and sits on the line of
+    a rewritten site, with as many carrying entries on a line as rewritten sites on it; every rewritten site has one *)
+Definition e2e_entries_ok (c : e2e_case) : bool :=
+  let carrying := List.filter (fun ch => nonempty (snd ch)) (e_obs_changes c) in
+  let n_entries line := length (List.filter (fun ch => Z.eqb (fst ch) line) carrying) in
+  let n_sites line := length (List.filter (fun s => Z.eqb (snd s) line && mem_N (fst s) (e_obs_rewritten c)) (e_sites c)) in
+  forallb (fun ch => Nat.eqb (length (snd ch)) 1 && Nat.eqb (n_entries (fst ch)) (n_sites (fst ch))) carrying &&
+  forallb (fun s => if mem_N (fst s) (e_obs_rewritten c) then negb (Nat.eqb (n_entries (snd s)) 0) else true) (e_sites c).
 
 (** the hypothesis of C06_subset_exact on this program *)
 Definition e2e_discipline_ok (c : e2e_case) : bool := discipline_for T_now (e_ovr c) (e_cls c) (e_cands c) (e_nodes c).
